@@ -1,6 +1,31 @@
 package main
 
-// Frame / ownership obligations discharged without a solver (DESIGN 2.6).
+// Frame / ownership / initialisation obligations discharged without a solver
+// (DESIGN 2.6).  All of them are recomputed from /repo's current source on every run.
+//
+//   frame.global[F]          F (and, transitively, its callees) writes no package-level
+//                            variable and takes the address of none
+//   frame.noconc[F]          no go statement, channel operation, select, defer of a
+//                            state-changing closure; no sync/atomic/unsafe use
+//   frame.nondet[F]          no range over a map, no time / math/rand / os use, no
+//                            pointer-to-integer conversion
+//   frame.pkgvar[V]          package-level variable V is initialised by a side-effect free
+//                            expression and never assigned
+//   frame.readonly[F.p]      exported F does not write memory reachable from slice/pointer
+//                            parameter p (unless the contract says `modifies p`)
+//   frame.replaces[F.p]      (contract keyword `replaces p`) the pre-call contents of *p are
+//                            never read: *p is truncated/overwritten before its first use
+//   init[F.field]            (contract keyword `initfields`) on every path through F the
+//                            engine field is written before it is read
+
+import (
+	"fmt"
+	"go/ast"
+	"go/token"
+	"go/types"
+	"sort"
+	"strings"
+)
 
 type FrameOb struct {
 	Name   string
@@ -10,6 +35,748 @@ type FrameOb struct {
 	Sample bool
 }
 
+var framePropKinds = map[string][]string{
+	"C18": {"global", "noconc", "pkgvar", "readonly"},
+	"C17": {"global", "nondet", "pkgvar"},
+	"C12": {"global", "readonly", "replaces", "init", "noretain"},
+}
+
 func frameObligations(w *World, prop string) []*FrameOb {
-	return nil
+	kinds := framePropKinds[prop]
+	if len(kinds) == 0 {
+		return nil
+	}
+	want := map[string]bool{}
+	for _, k := range kinds {
+		want[k] = true
+	}
+	var out []*FrameOb
+	keys := sortedKeys(w.prog.Funcs)
+	info := w.prog.Info
+	first := true
+	add := func(fo *FrameOb) {
+		if first && fo.OK {
+			fo.Sample = true
+			first = false
+		}
+		out = append(out, fo)
+	}
+	if want["global"] {
+		first = true
+		for _, k := range keys {
+			fe := w.eff.F[k]
+			fo := &FrameOb{Name: "frame.global[" + k + "]", OK: len(fe.Globals) == 0, Detail: "writes no package-level variable"}
+			if !fo.OK {
+				var gs []string
+				for g, sites := range fe.GlobalSites {
+					gs = append(gs, g)
+					for _, s := range sites {
+						fo.Sites = append(fo.Sites, g+": "+s)
+					}
+				}
+				sort.Strings(gs)
+				sort.Strings(fo.Sites)
+				fo.Detail = "package-level variable(s) written or address taken: " + strings.Join(gs, ", ")
+			}
+			add(fo)
+		}
+	}
+	if want["noconc"] || want["nondet"] {
+		for _, k := range keys {
+			fd := w.prog.Funcs[k]
+			var conc, nondet []string
+			ast.Inspect(fd.Body, func(n ast.Node) bool {
+				switch x := n.(type) {
+				case *ast.GoStmt:
+					conc = append(conc, "go statement at "+w.eff.pos(x))
+				case *ast.SendStmt:
+					conc = append(conc, "channel send at "+w.eff.pos(x))
+				case *ast.SelectStmt:
+					conc = append(conc, "select at "+w.eff.pos(x))
+				case *ast.UnaryExpr:
+					if x.Op == token.ARROW {
+						conc = append(conc, "channel receive at "+w.eff.pos(x))
+					}
+				case *ast.RangeStmt:
+					if tv, ok := info.Types[x.X]; ok {
+						switch tv.Type.Underlying().(type) {
+						case *types.Map:
+							nondet = append(nondet, "range over map at "+w.eff.pos(x))
+						case *types.Chan:
+							conc = append(conc, "range over channel at "+w.eff.pos(x))
+						}
+					}
+				case *ast.SelectorExpr:
+					if id, ok := x.X.(*ast.Ident); ok {
+						if pn, ok := info.Uses[id].(*types.PkgName); ok {
+							switch pn.Imported().Path() {
+							case "sync", "sync/atomic", "unsafe", "runtime":
+								conc = append(conc, pn.Imported().Path()+"."+x.Sel.Name+" at "+w.eff.pos(x))
+							case "time", "math/rand", "math/rand/v2", "os", "crypto/rand", "reflect":
+								nondet = append(nondet, pn.Imported().Path()+"."+x.Sel.Name+" at "+w.eff.pos(x))
+							}
+						}
+					}
+				case *ast.CallExpr:
+					// conversion of a pointer to an integer
+					if tv, ok := info.Types[x.Fun]; ok && tv.IsType() && len(x.Args) == 1 {
+						if b, ok := tv.Type.Underlying().(*types.Basic); ok && b.Kind() == types.Uintptr {
+							nondet = append(nondet, "conversion to uintptr at "+w.eff.pos(x))
+						}
+					}
+				}
+				return true
+			})
+			if want["noconc"] {
+				fo := &FrameOb{Name: "frame.noconc[" + k + "]", OK: len(conc) == 0, Detail: "no goroutine, channel, select, sync, atomic or unsafe", Sites: conc}
+				if !fo.OK {
+					fo.Detail = "concurrency construct: " + strings.Join(conc, "; ")
+				}
+				out = append(out, fo)
+			}
+			if want["nondet"] {
+				fo := &FrameOb{Name: "frame.nondet[" + k + "]", OK: len(nondet) == 0, Detail: "no map iteration, clock, random source, environment or address-as-integer", Sites: nondet}
+				if !fo.OK {
+					fo.Detail = "source of nondeterminism: " + strings.Join(nondet, "; ")
+				}
+				out = append(out, fo)
+			}
+		}
+	}
+	if want["pkgvar"] {
+		for _, f := range w.prog.Files {
+			for _, d := range f.Decls {
+				gd, ok := d.(*ast.GenDecl)
+				if !ok || gd.Tok != token.VAR {
+					continue
+				}
+				for _, sp := range gd.Specs {
+					vs := sp.(*ast.ValueSpec)
+					for i, n := range vs.Names {
+						if n.Name == "_" {
+							continue
+						}
+						okInit := true
+						detail := "initialised by a pure expression, never assigned"
+						if i < len(vs.Values) {
+							ast.Inspect(vs.Values[i], func(m ast.Node) bool {
+								if call, ok := m.(*ast.CallExpr); ok {
+									name := exprString(w.prog.Fset, call.Fun)
+									switch name {
+									case "math.Inf", "errors.New", "math.Pow", "math.Sqrt", "math.NaN":
+									default:
+										if tv, ok := info.Types[call.Fun]; ok && tv.IsType() {
+											break
+										}
+										okInit = false
+										detail = "initialiser calls " + name
+									}
+								}
+								return true
+							})
+						}
+						// mutable kinds (maps, slices, pointers, structs with such) are shared state even if never reassigned
+						if obj := info.Defs[n]; obj != nil {
+							switch obj.Type().Underlying().(type) {
+							case *types.Map, *types.Slice, *types.Chan:
+								okInit = false
+								detail = "package-level " + obj.Type().String() + " is shared mutable state"
+							}
+						}
+						out = append(out, &FrameOb{Name: "frame.pkgvar[" + n.Name + "]", OK: okInit, Detail: detail, Sites: []string{w.eff.pos(n)}})
+					}
+				}
+			}
+		}
+		// init() functions
+		for _, k := range keys {
+			if k == "init" {
+				out = append(out, &FrameOb{Name: "frame.pkgvar[init()]", OK: false, Detail: "package has an init() function", Sites: []string{w.eff.pos(w.prog.Funcs[k])}})
+			}
+		}
+	}
+	if want["readonly"] {
+		first = true
+		for _, k := range keys {
+			fd := w.prog.Funcs[k]
+			if !isExportedAPI(k, fd) {
+				continue
+			}
+			fe := w.eff.F[k]
+			fc := w.prog.C.ByKey[k]
+			idx := 0
+			for _, f := range fd.Type.Params.List {
+				names := f.Names
+				if len(names) == 0 {
+					names = []*ast.Ident{ast.NewIdent(fmt.Sprintf("_p%d", idx))}
+				}
+				for _, n := range names {
+					t := info.Types[f.Type].Type
+					isPathLike := false
+					if t != nil {
+						switch u := t.Underlying().(type) {
+						case *types.Slice:
+							isPathLike = true
+							_ = u
+						}
+					}
+					if isPathLike {
+						allowed := false
+						if fc != nil {
+							for _, m := range fc.Modifies {
+								if m == n.Name {
+									allowed = true
+								}
+							}
+						}
+						fo := &FrameOb{Name: fmt.Sprintf("frame.readonly[%s.%s]", k, n.Name), OK: !fe.ParamWrites[idx] || allowed, Detail: "caller's slice is only read"}
+						if !fo.OK {
+							fo.Sites = fe.WriteSites[idx]
+							fo.Detail = "memory of caller-supplied slice may be written: " + strings.Join(fe.WriteSites[idx], "; ")
+						}
+						add(fo)
+					}
+					idx++
+				}
+			}
+		}
+	}
+	if want["noretain"] {
+		// an engine must not keep a reference to a caller-supplied path slice: AddPaths copies vertices
+		for _, k := range keys {
+			fd := w.prog.Funcs[k]
+			if !strings.Contains(strings.ToLower(fd.Name.Name), "addpath") && !strings.Contains(strings.ToLower(fd.Name.Name), "addsubject") && !strings.Contains(strings.ToLower(fd.Name.Name), "addclip") {
+				continue
+			}
+			sites := retainedParams(w, fd)
+			fo := &FrameOb{Name: "frame.noretain[" + k + "]", OK: len(sites) == 0, Detail: "no caller-supplied slice is stored in an object field", Sites: sites}
+			if !fo.OK {
+				fo.Detail = "caller-supplied slice stored in a field: " + strings.Join(sites, "; ")
+			}
+			out = append(out, fo)
+		}
+	}
+	if want["replaces"] {
+		for _, fc := range w.prog.C.Funcs {
+			if !hasProp(fc.Props, prop) {
+				continue
+			}
+			for _, g := range fc.Ghosts {
+				f := strings.Fields(g)
+				if len(f) < 2 || f[0] != "replaces" {
+					continue
+				}
+				for _, p := range f[1:] {
+					ok, why := replacesParam(w, fc.Name, p, map[string]bool{})
+					fo := &FrameOb{Name: fmt.Sprintf("frame.replaces[%s.%s]", fc.Name, p), OK: ok, Detail: "pre-call contents are discarded before the first use"}
+					if !ok {
+						fo.Detail = "pre-call contents of *" + p + " are read: " + why
+						fo.Sites = []string{why}
+					}
+					out = append(out, fo)
+				}
+			}
+		}
+	}
+	if want["init"] {
+		for _, fc := range w.prog.C.Funcs {
+			if !hasProp(fc.Props, prop) {
+				continue
+			}
+			for _, g := range fc.Ghosts {
+				f := strings.Fields(g)
+				if len(f) < 2 || f[0] != "initfields" {
+					continue
+				}
+				for _, fld := range f[1:] {
+					ia := &initAnalysis{w: w, field: fld, memo: map[string]*initSummary{}, active: map[string]bool{}}
+					s := ia.summary(fc.Name)
+					fo := &FrameOb{Name: fmt.Sprintf("init[%s.%s]", fc.Name, fld), OK: len(s.readFirst) == 0, Detail: "field is written before it is read on every path"}
+					if !fo.OK {
+						fo.Detail = "field " + fld + " may be read before it is written in this call: " + strings.Join(s.readFirst, "; ")
+						fo.Sites = s.readFirst
+					}
+					out = append(out, fo)
+				}
+			}
+		}
+	}
+	return out
+}
+
+func isExportedAPI(key string, fd *ast.FuncDecl) bool {
+	if !fd.Name.IsExported() {
+		return false
+	}
+	if strings.HasPrefix(fd.Name.Name, "Test") || strings.HasPrefix(fd.Name.Name, "Benchmark") {
+		return false
+	}
+	return true
+}
+
+// retainedParams: statements that store a slice parameter (or a sub-slice of it) into a field
+func retainedParams(w *World, fd *ast.FuncDecl) []string {
+	info := w.prog.Info
+	params := map[types.Object]bool{}
+	for _, f := range fd.Type.Params.List {
+		for _, n := range f.Names {
+			if o := info.Defs[n]; o != nil {
+				if _, ok := o.Type().Underlying().(*types.Slice); ok {
+					params[o] = true
+				}
+			}
+		}
+	}
+	var sites []string
+	ast.Inspect(fd.Body, func(n ast.Node) bool {
+		as, ok := n.(*ast.AssignStmt)
+		if !ok {
+			return true
+		}
+		for i, l := range as.Lhs {
+			if _, isSel := ast.Unparen(l).(*ast.SelectorExpr); !isSel {
+				continue
+			}
+			if i >= len(as.Rhs) {
+				continue
+			}
+			r := ast.Unparen(as.Rhs[i])
+			if se, ok := r.(*ast.SliceExpr); ok {
+				r = ast.Unparen(se.X)
+			}
+			if id, ok := r.(*ast.Ident); ok && params[info.Uses[id]] {
+				sites = append(sites, id.Name+" stored at "+w.eff.pos(as))
+			}
+		}
+		return true
+	})
+	return sites
+}
+
+// ---------------------------------------------------------------- replaces
+
+func mentions(n ast.Node, obj types.Object, info *types.Info) bool {
+	found := false
+	ast.Inspect(n, func(m ast.Node) bool {
+		if id, ok := m.(*ast.Ident); ok && info.Uses[id] == obj {
+			found = true
+		}
+		return !found
+	})
+	return found
+}
+
+// replacesParam: is the pre-call content of *param dead in function key?
+func replacesParam(w *World, key, param string, active map[string]bool) (bool, string) {
+	if active[key+"."+param] {
+		return true, ""
+	}
+	active[key+"."+param] = true
+	defer delete(active, key+"."+param)
+	fd := w.prog.Funcs[key]
+	if fd == nil {
+		return false, "unknown function " + key
+	}
+	info := w.prog.Info
+	var obj types.Object
+	for _, f := range fd.Type.Params.List {
+		for _, n := range f.Names {
+			if n.Name == param {
+				obj = info.Defs[n]
+			}
+		}
+	}
+	if obj == nil {
+		return false, "no parameter " + param + " in " + key
+	}
+	// status: true = cleared
+	var scan func(list []ast.Stmt) (cleared bool, bad string)
+	clearsStmt := func(s ast.Stmt) (bool, string) {
+		// *P = (*P)[:0]   or   *P = <expr without P>
+		if as, ok := s.(*ast.AssignStmt); ok && len(as.Lhs) == 1 && as.Tok == token.ASSIGN {
+			if st, ok := ast.Unparen(as.Lhs[0]).(*ast.StarExpr); ok {
+				if id, ok := ast.Unparen(st.X).(*ast.Ident); ok && info.Uses[id] == obj {
+					r := ast.Unparen(as.Rhs[0])
+					if se, ok := r.(*ast.SliceExpr); ok && se.Low == nil && se.High != nil {
+						if tv, ok := info.Types[se.High]; ok && tv.Value != nil && tv.Value.String() == "0" {
+							return true, ""
+						}
+					}
+					if !mentions(as.Rhs[0], obj, info) {
+						return true, ""
+					}
+					return false, "old contents used at " + w.eff.pos(s)
+				}
+			}
+		}
+		// P.Clear()
+		var call *ast.CallExpr
+		switch x := s.(type) {
+		case *ast.ExprStmt:
+			call, _ = x.X.(*ast.CallExpr)
+		case *ast.AssignStmt:
+			if len(x.Rhs) == 1 {
+				call, _ = ast.Unparen(x.Rhs[0]).(*ast.CallExpr)
+				for _, l := range x.Lhs {
+					if mentions(l, obj, info) {
+						return false, "used at " + w.eff.pos(s)
+					}
+				}
+			}
+		case *ast.ReturnStmt:
+			if len(x.Results) == 1 {
+				call, _ = ast.Unparen(x.Results[0]).(*ast.CallExpr)
+			}
+		}
+		if call != nil {
+			if se, ok := call.Fun.(*ast.SelectorExpr); ok && se.Sel.Name == "Clear" {
+				if id, ok := ast.Unparen(se.X).(*ast.Ident); ok && info.Uses[id] == obj {
+					return true, ""
+				}
+			}
+			// P passed on as a plain argument to a callee that itself replaces it
+			cnt := 0
+			argIdx := -1
+			for i, a := range call.Args {
+				if id, ok := ast.Unparen(a).(*ast.Ident); ok && info.Uses[id] == obj {
+					argIdx = i
+					cnt++
+				} else if mentions(a, obj, info) {
+					return false, "used at " + w.eff.pos(s)
+				}
+			}
+			if mentions(call.Fun, obj, info) {
+				return false, "used at " + w.eff.pos(s)
+			}
+			if cnt == 1 {
+				var o types.Object
+				switch f := ast.Unparen(call.Fun).(type) {
+				case *ast.Ident:
+					o = info.Uses[f]
+				case *ast.SelectorExpr:
+					o = info.Uses[f.Sel]
+				}
+				if fn, ok := o.(*types.Func); ok {
+					if ck, ok := w.prog.FuncObj[fn.Origin()]; ok {
+						cfd := w.prog.Funcs[ck]
+						i := 0
+						for _, f := range cfd.Type.Params.List {
+							for _, n := range f.Names {
+								if i == argIdx {
+									return replacesParam(w, ck, n.Name, active)
+								}
+								i++
+							}
+						}
+					}
+				}
+				return false, "passed to an unknown callee at " + w.eff.pos(s)
+			}
+		}
+		return false, "used at " + w.eff.pos(s)
+	}
+	scan = func(list []ast.Stmt) (bool, string) {
+		for _, s := range list {
+			if !mentions(s, obj, info) {
+				if _, isRet := s.(*ast.ReturnStmt); isRet {
+					return true, "" // returns without touching it on this path
+				}
+				continue
+			}
+			switch x := s.(type) {
+			case *ast.IfStmt:
+				if (x.Init != nil && mentions(x.Init, obj, info)) || mentions(x.Cond, obj, info) {
+					return false, "used in condition at " + w.eff.pos(s)
+				}
+				c1, b1 := scan(x.Body.List)
+				if b1 != "" {
+					return false, b1
+				}
+				c2 := false
+				if x.Else != nil {
+					var b2 string
+					switch e := x.Else.(type) {
+					case *ast.BlockStmt:
+						c2, b2 = scan(e.List)
+					default:
+						c2, b2 = scan([]ast.Stmt{e})
+					}
+					if b2 != "" {
+						return false, b2
+					}
+				}
+				if c1 && c2 {
+					return true, ""
+				}
+				continue
+			case *ast.BlockStmt:
+				c, b := scan(x.List)
+				if b != "" {
+					return false, b
+				}
+				if c {
+					return true, ""
+				}
+				continue
+			}
+			ok, why := clearsStmt(s)
+			if ok {
+				return true, ""
+			}
+			return false, why
+		}
+		return false, ""
+	}
+	cleared, bad := scan(fd.Body.List)
+	if bad != "" {
+		return false, bad
+	}
+	_ = cleared
+	return true, ""
+}
+
+// ---------------------------------------------------------------- init-before-read
+
+type initSummary struct {
+	readFirst []string // sites where the field may be read before it was written
+	mustWrite bool     // written on every path to a normal return
+}
+
+type initAnalysis struct {
+	w      *World
+	field  string // "clipperBase.succeeded"
+	memo   map[string]*initSummary
+	active map[string]bool
+}
+
+func (ia *initAnalysis) isField(e ast.Expr) bool {
+	se, ok := ast.Unparen(e).(*ast.SelectorExpr)
+	if !ok {
+		return false
+	}
+	sel := ia.w.prog.Info.Selections[se]
+	if sel == nil || sel.Kind() != types.FieldVal {
+		return false
+	}
+	v, ok := sel.Obj().(*types.Var)
+	if !ok {
+		return false
+	}
+	parts := strings.SplitN(ia.field, ".", 2)
+	if v.Name() != parts[1] {
+		return false
+	}
+	// owner struct
+	t := ia.w.prog.Info.Types[se.X].Type
+	for _, idx := range sel.Index() {
+		if p, ok := t.Underlying().(*types.Pointer); ok {
+			t = p.Elem()
+		}
+		st, ok := t.Underlying().(*types.Struct)
+		if !ok {
+			return false
+		}
+		if idx == sel.Index()[len(sel.Index())-1] && st.Field(idx) == v {
+			if n, ok := types.Unalias(t).(*types.Named); ok {
+				return n.Obj().Name() == parts[0]
+			}
+		}
+		t = st.Field(idx).Type()
+	}
+	return false
+}
+
+func (ia *initAnalysis) summary(key string) *initSummary {
+	if s, ok := ia.memo[key]; ok {
+		return s
+	}
+	if ia.active[key] {
+		return &initSummary{}
+	}
+	ia.active[key] = true
+	defer delete(ia.active, key)
+	fd := ia.w.prog.Funcs[key]
+	s := &initSummary{mustWrite: true}
+	if fd == nil {
+		s.mustWrite = false
+		return s
+	}
+	anyReturn := false
+	var stmts func(list []ast.Stmt, w bool) (bool, bool) // returns (written, terminated)
+	var expr func(e ast.Node, w bool) bool
+	expr = func(e ast.Node, w bool) bool {
+		if e == nil {
+			return w
+		}
+		// evaluation order approximated by source order
+		ast.Inspect(e, func(n ast.Node) bool {
+			switch x := n.(type) {
+			case *ast.FuncLit:
+				return false
+			case *ast.SelectorExpr:
+				if ia.isField(x) && !w {
+					s.readFirst = append(s.readFirst, "read at "+ia.w.eff.pos(x)+" in "+key)
+				}
+			case *ast.CallExpr:
+				for _, a := range x.Args {
+					w = expr(a, w)
+				}
+				if se, ok := x.Fun.(*ast.SelectorExpr); ok {
+					w = expr(se.X, w)
+				}
+				var o types.Object
+				switch f := ast.Unparen(x.Fun).(type) {
+				case *ast.Ident:
+					o = ia.w.prog.Info.Uses[f]
+				case *ast.SelectorExpr:
+					o = ia.w.prog.Info.Uses[f.Sel]
+				}
+				if fn, ok := o.(*types.Func); ok {
+					if ck, ok := ia.w.prog.FuncObj[fn.Origin()]; ok && !strings.HasPrefix(ck, "spec:") {
+						cs := ia.summary(ck)
+						if !w {
+							for _, r := range cs.readFirst {
+								s.readFirst = append(s.readFirst, r+" (called from "+key+" at "+ia.w.eff.pos(x)+")")
+							}
+						}
+						if cs.mustWrite {
+							w = true
+						}
+					}
+				}
+				return false
+			}
+			return true
+		})
+		return w
+	}
+	var stmt func(st ast.Stmt, w bool) (bool, bool)
+	stmt = func(st ast.Stmt, w bool) (bool, bool) {
+		switch x := st.(type) {
+		case nil:
+			return w, false
+		case *ast.BlockStmt:
+			return stmts(x.List, w)
+		case *ast.AssignStmt:
+			for _, r := range x.Rhs {
+				w = expr(r, w)
+			}
+			for _, l := range x.Lhs {
+				if ia.isField(l) {
+					if x.Tok != token.ASSIGN && !w {
+						s.readFirst = append(s.readFirst, "read-modify-write at "+ia.w.eff.pos(x)+" in "+key)
+					}
+					w = true
+				} else {
+					w = expr(l, w)
+				}
+			}
+			return w, false
+		case *ast.IncDecStmt:
+			if ia.isField(x.X) {
+				if !w {
+					s.readFirst = append(s.readFirst, "read-modify-write at "+ia.w.eff.pos(x)+" in "+key)
+				}
+				return true, false
+			}
+			return expr(x.X, w), false
+		case *ast.ExprStmt:
+			return expr(x.X, w), false
+		case *ast.DeclStmt:
+			return expr(x, w), false
+		case *ast.ReturnStmt:
+			for _, r := range x.Results {
+				w = expr(r, w)
+			}
+			anyReturn = true
+			if !w {
+				s.mustWrite = false
+			}
+			return w, true
+		case *ast.IfStmt:
+			if x.Init != nil {
+				w, _ = stmt(x.Init, w)
+			}
+			w = expr(x.Cond, w)
+			w1, t1 := stmts(x.Body.List, w)
+			w2, t2 := w, false
+			if x.Else != nil {
+				w2, t2 = stmt(x.Else, w)
+			}
+			switch {
+			case t1 && t2:
+				return true, true
+			case t1:
+				return w2, false
+			case t2:
+				return w1, false
+			}
+			return w1 && w2, false
+		case *ast.ForStmt:
+			if x.Init != nil {
+				w, _ = stmt(x.Init, w)
+			}
+			if x.Cond != nil {
+				w = expr(x.Cond, w)
+			}
+			wb, _ := stmts(x.Body.List, w)
+			if x.Post != nil {
+				stmt(x.Post, wb)
+			}
+			if x.Cond == nil {
+				// for {}: leaves only through break/return; be conservative
+				return w, false
+			}
+			return w, false
+		case *ast.RangeStmt:
+			w = expr(x.X, w)
+			stmts(x.Body.List, w)
+			return w, false
+		case *ast.SwitchStmt:
+			if x.Init != nil {
+				w, _ = stmt(x.Init, w)
+			}
+			if x.Tag != nil {
+				w = expr(x.Tag, w)
+			}
+			all := true
+			hasDefault := false
+			for _, c := range x.Body.List {
+				cc := c.(*ast.CaseClause)
+				if cc.List == nil {
+					hasDefault = true
+				}
+				for _, e := range cc.List {
+					expr(e, w)
+				}
+				wc, tc := stmts(cc.Body, w)
+				if !tc && !wc {
+					all = false
+				}
+			}
+			return w || (all && hasDefault), false
+		case *ast.LabeledStmt:
+			return stmt(x.Stmt, w)
+		case *ast.BranchStmt:
+			return w, true
+		}
+		return w, false
+	}
+	stmts = func(list []ast.Stmt, w bool) (bool, bool) {
+		for _, st := range list {
+			var t bool
+			w, t = stmt(st, w)
+			if t {
+				return w, true
+			}
+		}
+		return w, false
+	}
+	wEnd, term := stmts(fd.Body.List, false)
+	if !term && !wEnd {
+		s.mustWrite = false
+	}
+	_ = anyReturn
+	ia.memo[key] = s
+	return s
 }
